@@ -353,26 +353,26 @@ pub mod bytes {
 #[cfg(any(vcfg_x86std, vcfg_x86none, vcfg_x86alloc, vcfg_x86avx2, vcfg_x86rel))]
 inst!(it_top1_step_10, [props=C06 xprops=C14+C05 tier=thorough cfg=x86std t=1500 role=memchr-iter-step uw=oracle::count:12;@MEMCHR], 3, bytes::top_step::<10>(1, true));
 #[cfg(any(vcfg_x86std, vcfg_x86none, vcfg_x86alloc, vcfg_x86avx2, vcfg_x86rel))]
-inst!(it_top2_step_18, [props=C06 xprops=C05+C14 tier=thorough cfg=x86std t=1500 role=memchr2-iter-step uw=oracle::count:20;@MEMCHR], 3, bytes::top_step::<18>(2, true));
+inst!(it_top2_step_18, [props=C06 xprops=C05+C14 tier=manual cfg=x86std t=1500 role=memchr2-iter-step uw=oracle::count:20;@MEMCHR], 3, bytes::top_step::<18>(2, true));
 #[cfg(any(vcfg_x86std, vcfg_x86none, vcfg_x86alloc, vcfg_x86avx2, vcfg_x86rel))]
-inst!(it_top3_step_18, [props=C06 xprops=C05+C14 tier=thorough cfg=x86std t=1500 role=memchr3-iter-step uw=oracle::count:20;@MEMCHR], 3, bytes::top_step::<18>(3, true));
+inst!(it_top3_step_18, [props=C06 xprops=C05+C14 tier=manual cfg=x86std t=1500 role=memchr3-iter-step uw=oracle::count:20;@MEMCHR], 3, bytes::top_step::<18>(3, true));
 #[cfg(any(vcfg_x86std, vcfg_x86none, vcfg_x86alloc, vcfg_x86avx2, vcfg_x86rel))]
-inst!(it_top1_step_40, [props=C06 xprops=C05+C14 tier=thorough cfg=x86std t=3600 role=memchr-iter-step uw=oracle::count:42;@MEMCHR], 3, bytes::top_step::<40>(1, true));
+inst!(it_top1_step_40, [props=C06 xprops=C05+C14 tier=manual cfg=x86std t=3600 role=memchr-iter-step uw=oracle::count:42;@MEMCHR], 3, bytes::top_step::<40>(1, true));
 inst!(it_top_step_generic_24, [props=C06 xprops=C05+C14 tier=quick cfg=generic t=1500 role=memchr-iter-step uw=oracle::count:26;@MEMCHR], 3, bytes_generic::top_step::<24>(3));
 inst!(it_top_base, [props=C06 xprops=C14 tier=quick cfg=x86std+generic t=600 role=iter-base-case], 3, bytes::top_base::<12>());
 inst!(it_swar1_step, [props=C06+C14 xprops=C05 tier=quick cfg=x86std t=1500 role=swar-iter-step uw=oracle::count:26;One::find_raw.0:4;One::rfind_raw.0:4;byte_by_byte:18], 18, bytes::swar_step::<31>(1, 24));
 inst!(it_swar3_step, [props=C06 xprops=C05+C14 tier=quick cfg=x86std t=1500 role=swar-iter-step uw=oracle::count:26;Three::find_raw.0:4;Three::rfind_raw.0:4;byte_by_byte:10], 10, bytes::swar_step::<31>(3, 24));
 inst!(it_swar2_step, [props=C06 xprops=C05+C14 tier=thorough cfg=x86std t=1500 role=swar-iter-step uw=oracle::count:26;Two::find_raw.0:4;Two::rfind_raw.0:4;byte_by_byte:10], 10, bytes::swar_step::<31>(2, 24));
-inst!(it_seq_top_8x3, [props=C06 xprops=C14 tier=thorough cfg=x86std t=1500 role=iter-call-sequences uw=@MEMCHR;sequence:10;oracle::count:10], 3, bytes::sequence::<8, 3>(0));
+inst!(it_seq_top_8x3, [props=C06 xprops=C14 tier=manual cfg=x86std t=1500 role=iter-call-sequences uw=@MEMCHR;sequence:10;oracle::count:10], 3, bytes::sequence::<8, 3>(0));
 inst!(it_seq_top_10x4, [props=C06 xprops=C14 tier=manual cfg=x86std t=5400 role=iter-call-sequences uw=@MEMCHR;sequence:12;oracle::count:12], 3, bytes::sequence::<10, 4>(0));
 inst!(it_seq_swar_8x3, [props=C06 xprops=C14 tier=thorough cfg=x86std t=1500 role=iter-call-sequences uw=@MEMCHR;sequence:10;oracle::count:10], 3, bytes::sequence::<8, 3>(1));
-inst!(it_seq_swar_10x4, [props=C06 xprops=C14 tier=thorough cfg=x86std t=5400 role=iter-call-sequences uw=@MEMCHR;sequence:12;oracle::count:12], 3, bytes::sequence::<10, 4>(1));
+inst!(it_seq_swar_10x4, [props=C06 xprops=C14 tier=manual cfg=x86std t=5400 role=iter-call-sequences uw=@MEMCHR;sequence:12;oracle::count:12], 3, bytes::sequence::<10, 4>(1));
 inst!(it_seq_sse2_18x2, [props=C06 xprops=C14 tier=thorough cfg=x86std t=1500 role=iter-call-sequences uw=@MEMCHR;sequence:20;oracle::count:20], 3, bytes::sequence::<18, 2>(2));
-inst!(it_seq_sse2_18x3, [props=C06 xprops=C14 tier=thorough cfg=x86std t=5400 role=iter-call-sequences uw=@MEMCHR;sequence:20;oracle::count:20], 3, bytes::sequence::<18, 3>(2));
-inst!(it_seq_top3_10x4, [props=C06 xprops=C14 tier=thorough cfg=x86std t=1500 role=iter-call-sequences uw=@MEMCHR;sequence:12;oracle::count:12], 3, bytes::sequence::<10, 4>(3));
-inst!(it_seq_avx2_34x3, [props=C06 xprops=C14 tier=thorough cfg=x86std t=3600 role=iter-call-sequences uw=@MEMCHR;sequence:36;oracle::count:36], 3, bytes::sequence::<34, 3>(4));
+inst!(it_seq_sse2_18x3, [props=C06 xprops=C14 tier=manual cfg=x86std t=5400 role=iter-call-sequences uw=@MEMCHR;sequence:20;oracle::count:20], 3, bytes::sequence::<18, 3>(2));
+inst!(it_seq_top3_10x4, [props=C06 xprops=C14 tier=manual cfg=x86std t=1500 role=iter-call-sequences uw=@MEMCHR;sequence:12;oracle::count:12], 3, bytes::sequence::<10, 4>(3));
+inst!(it_seq_avx2_34x3, [props=C06 xprops=C14 tier=manual cfg=x86std t=3600 role=iter-call-sequences uw=@MEMCHR;sequence:36;oracle::count:36], 3, bytes::sequence::<34, 3>(4));
 inst!(cnt_window_top_14, [props=C07 xprops=C05+C14 tier=quick cfg=x86std t=1500 role=count-from-window uw=oracle::count:22;all::memchr::One::count_raw.0:22;@MEMCHR], 3, bytes::count_from_window::<14>(0));
-inst!(cnt_window_top_40, [props=C07 xprops=C05+C14 tier=thorough cfg=x86std t=3600 role=count-from-window uw=oracle::count:42;all::memchr::One::count_raw.0:42;@MEMCHR], 3, bytes::count_from_window::<40>(0));
+inst!(cnt_window_top_40, [props=C07 xprops=C05+C14 tier=manual cfg=x86std t=3600 role=count-from-window uw=oracle::count:42;all::memchr::One::count_raw.0:42;@MEMCHR], 3, bytes::count_from_window::<40>(0));
 inst!(cnt_window_swar_20, [props=C07 xprops=C05+C14 tier=quick cfg=x86std+generic t=1500 role=count-from-window uw=oracle::count:22;all::memchr::One::count_raw.0:22;@MEMCHR], 3, bytes::count_from_window::<20>(1));
 inst!(cnt_after_advance_12, [props=C07 xprops=C14 tier=quick cfg=x86std t=1500 role=count-after-advance uw=oracle::count:20;all::memchr::One::count_raw.0:20;@MEMCHR], 3, bytes::count_after_advance::<12>());
 
